@@ -10,7 +10,7 @@ import (
 	"verif/lib/chainx"
 )
 
-var soundStates = []string{"preamble", "fee-raised", "acc3-blocked", "conflicts-onchain"}
+var soundStates = []string{"preamble", "fee-raised", "acc3-blocked", "conflicts-onchain", "oracle"}
 
 // buildCase makes the submission of shape sh with mutation m in the runner's state.
 func (rn *runner) buildCase(sh shape, m mutation, scriptLen int) (*sCase, bool, error) {
@@ -32,6 +32,7 @@ func (rn *runner) buildCase(sh shape, m mutation, scriptLen int) (*sCase, bool, 
 	}
 	tx = fresh(tx)
 	tx.NetworkFee = calc + sp.NetDelta
+	fixSysFee(sp, tx)
 	if m.Tx != nil {
 		m.Tx(n, tx)
 	}
